@@ -168,7 +168,7 @@ func (w *World) observe() string {
 }
 
 func (w *World) startFull(img map[string][]byte, root string) string {
-	o := bm.Options{InitialHeight: w.opt.InitialHeight, GenesisTime: w.opt.GenesisTime, Aggregator: false, Image: img, Root: root}
+	o := bm.Options{InitialHeight: w.opt.InitialHeight, GenesisTime: w.opt.GenesisTime, Aggregator: false, Image: img, Root: root, CustomPayload: w.opt.CustomPayload}
 	old := w.full
 	env, err := bm.New(o)
 	if old != nil && root == "" {
@@ -214,7 +214,7 @@ func Run(c *hx.Ctx) {
 				w.prod.Cleanup()
 			}
 			ih, _ := o.U64("ih")
-			w.opt = bm.Options{InitialHeight: ih, GenesisTime: time.Unix(0, o.I64("gt"))}
+			w.opt = bm.Options{InitialHeight: ih, GenesisTime: time.Unix(0, o.I64("gt")), CustomPayload: o.Bool("cp")}
 			po := w.opt
 			po.Aggregator = true
 			p, err := bm.New(po)
